@@ -54,6 +54,10 @@ def _auto_positive_symbol(tokens, local_dict, global_dict):
                     (token.OP, ")"),
                 ]
             )
+        elif tokNum == token.STRING or tokNum == getattr(token, "FSTRING_START", None):
+            # sympy would sympify a string that ends up as an operand, that is,
+            # parse and evaluate its contents with the full sympy namespace
+            raise SyntaxError("string literals are not allowed in unit expressions")
         else:
             result.append((tokNum, tokVal))
 
